@@ -181,19 +181,15 @@ fn extracted_fun_src(
     body_end: usize,
     params: &[(SymbolName, Option<Type>)],
 ) -> String {
-    let return_signature = match return_ty {
-        Some(Type::Any) | None => "".to_owned(),
-        Some(Type::Error { inferred_type, .. }) => match inferred_type {
-            Some(ty) => format!(": {ty}"),
-            None => "".to_owned(),
-        },
-        Some(ty) => format!(": {ty}"),
+    let return_signature = match return_ty.and_then(hint_src) {
+        Some(ty_src) => format!(": {ty_src}"),
+        None => "".to_owned(),
     };
 
     let params_signature = params
         .iter()
-        .map(|(param, ty)| match ty {
-            Some(ty) => format!("{}: {}", param.text, ty),
+        .map(|(param, ty)| match ty.as_ref().and_then(hint_src) {
+            Some(ty_src) => format!("{}: {}", param.text, ty_src),
             None => param.text.to_owned(),
         })
         .collect::<Vec<_>>()
@@ -206,6 +202,33 @@ fn extracted_fun_src(
         return_signature,
         &src[body_start..body_end]
     )
+}
+
+/// Render `ty` as a type hint, or `None` when there is no hint that
+/// is both valid syntax and true at runtime: `Any` is not a type
+/// that hints can name, `NoValue` has no values, and error types
+/// have no source form.
+fn hint_src(ty: &Type) -> Option<String> {
+    match ty {
+        Type::Error {
+            inferred_type: Some(inferred_type),
+            ..
+        } => hint_src(inferred_type),
+        _ if mentions_unhintable(ty) => None,
+        _ => Some(ty.to_string()),
+    }
+}
+
+fn mentions_unhintable(ty: &Type) -> bool {
+    match ty {
+        Type::Any | Type::Error { .. } => true,
+        Type::UserDefined { args, .. } => ty.is_no_value() || args.iter().any(mentions_unhintable),
+        Type::Tuple(items) => items.iter().any(mentions_unhintable),
+        Type::Fun {
+            params, return_, ..
+        } => params.iter().any(mentions_unhintable) || mentions_unhintable(return_),
+        Type::TypeParameter(_) => false,
+    }
 }
 
 fn locals_outside_exprs(
